@@ -807,6 +807,47 @@ theorem coo_entries (f : Format) (shape : List Nat) (pos crd0 : List Nat) (crds 
     rw [walk_coo pos crd0 crds n ns (by simpa using hs), List.map_map]
     rfl
 
+theorem dimIdx_range (c : Idx) : dimIdx (List.range c.length) c = c := by
+  unfold dimIdx
+  rw [invPerm_range]
+  exact gather_range c
+
+/-- the COO encoding of an entry list stores exactly that list, in that order -/
+theorem coo_encode_entries (f : Format) (shape : List Nat) (es : List (Idx × α)) (n : Nat) (fill : α)
+    (hk : f.kinds = .compressed :: List.replicate n .singleton) (ho : f.order = List.range (n + 1))
+    (hs : shape.length = n + 1) (hkeys : ∀ e ∈ es, e.1.length = n + 1) :
+    entries f shape (cooEncode es (n + 1)) (es.map (·.2)) fill = es := by
+  have hdecomp : cooEncode es (n + 1)
+      = [0, es.length] :: (es.map fun e => e.1.getD 0 0) :: (List.range n).map fun k => es.map fun e => e.1.getD (k + 1) 0 := by
+    simp only [cooEncode, List.range_succ_eq_map, List.map_cons, List.map_map]
+    rfl
+  rw [hdecomp, coo_entries f shape _ _ _ _ fill (by simpa using hk) (by rw [ho, lvlShape, gather_length]; simp)]
+  simp only [List.getD_cons_zero, List.getD_cons_succ, Nat.sub_zero]
+  apply List.ext_getElem (by simp)
+  intro q h1 h2
+  simp only [List.length_map, List.length_range'] at h1
+  have hq : (List.range' 0 es.length)[q]'(by simpa using h2) = q := by simp
+  simp only [List.getElem_map, hq]
+  have hlen := hkeys es[q] (List.getElem_mem h2)
+  have hkey : ((List.map (fun e => e.1.getD 0 0) es).getD q 0 ::
+        List.map (fun c => c.getD q 0) (List.map (fun k => List.map (fun e => e.1.getD (k + 1) 0) es) (List.range n)))
+      = es[q].1 := by
+    have h0 : (List.map (fun e : Idx × α => e.1.getD 0 0) es).getD q 0 = es[q].1.getD 0 0 := by
+      rw [getD_map (fun e : Idx × α => e.1.getD 0 0) es q es[q] 0 h2, getD_of_lt _ _ _ h2]
+    have hrest : List.map (fun c => c.getD q 0) (List.map (fun k => List.map (fun e : Idx × α => e.1.getD (k + 1) 0) es) (List.range n))
+        = (List.range n).map fun k => es[q].1.getD (k + 1) 0 := by
+      rw [List.map_map]
+      apply List.map_congr_left
+      intro k _
+      simp only [Function.comp]
+      rw [getD_map (fun e : Idx × α => e.1.getD (k + 1) 0) es q es[q] 0 h2, getD_of_lt _ _ _ h2]
+    rw [h0, hrest]
+    have := range_map_getD es[q].1
+    rw [hlen, List.range_succ_eq_map, List.map_cons, List.map_map] at this
+    exact this
+  rw [hkey, ho, ← hlen, dimIdx_range]
+  rw [getD_map (fun e : Idx × α => e.2) es q es[q] fill h2, getD_of_lt _ _ _ h2]
+
 end scipy
 
 end Levels
